@@ -6,7 +6,7 @@ as tasks of one simulated loop, fed by suspending streams/callables of seeded fl
 compared with the real stdlib function run over the sync twins of the very same objects.
 """
 
-from ..actors import World, Item, is_source_item, ident
+from ..actors import World, Item, is_source_item, ident, make_fault, FAULT_TYPES, LOGGING_FLAVOURS
 from ..runner import Outcome
 from ..tools import TOOLS, draw_cfg
 from ..tooldiff import Run, drive_tool, ref_tool, project_values, first_diff
@@ -21,7 +21,8 @@ RULE = (
     "each run draws a swarm configuration (flavour palettes, suspension depth, length/key scale, "
     "interrupt density) and 1..3 co-tenant scenarios: a tool, its valid parameters, 0..4 sources of "
     "0..7 items with heavy ties, callables; all co-tenants run interleaved by the seeded scheduler and "
-    "each is compared with the stdlib twin (items by identity, ending by exception type). A case is "
+    "each is compared with the stdlib twin (items by identity, ending by exception type); in one scenario in six "
+    "one or two parties (sources, callables) are prepared to raise at one of their uses. A case is "
     "non-trivial if it yields >=1 item or ends with an error AND has a tie, unequal lengths, a callable "
     "or a non-default parameter; distinct = distinct (tool, flavours, key sequences, callables, "
     "parameters) tuples over all co-tenants, counted by 64-bit hash."
@@ -45,7 +46,8 @@ def compare_values(out, spec, run, ref):
         eb = b[pos] if pos < len(b) else None
         kind = "ending" if ((ea and ea[0] == "end") or (eb and eb[0] == "end")) else "items"
         out.violate("C01.differs_from_stdlib", (spec.tool, kind),
-                    {"position": pos, "async": repr(ea), "stdlib": repr(eb), "scenario": spec.describe()})
+                    {"position": pos, "async": repr(ea), "stdlib": repr(eb), "scenario": spec.describe(),
+                     "prepared_faults": [repr(f) for f in getattr(spec, "_faults", ()) if f is not None]})
         return False
     # the caller's objects are not modified (e.g. a reduction adding in place into the first item)
     before = getattr(spec, "_items_before", None)
@@ -72,6 +74,28 @@ def execute(st, ctx):
         steps = bounded_steps(ch, spec) if TOOLS[spec.tool].infinite else None
         run = Run(World(sim, own_log=True))
         spec._items_before = [ident(list(p.items)) for p in spec.srcs]
+        faults = (None, None)
+        if ch.chance(1, 6):
+            # data that fails: one or two parties (sources, callables) prepared to raise at one of their uses;
+            # the ending - which exception, after which items - must be the stdlib's
+            base = ref_tool(spec, steps)
+            silent = {p.name for p in spec.srcs if p.flavour not in LOGGING_FLAVOURS}  # plain containers cannot fail
+            uses = [u for u in base.world.uses if u not in base.world.repolls and u[0] not in silent]
+            if uses:
+                k1 = st.faults.draw(len(uses))
+                f1 = uses[k1] + (make_fault(st.faults.draw(len(FAULT_TYPES)), "fault@%d" % k1),)
+                f2 = None
+                k2 = st.faults.draw(len(uses) + 1)
+                if k2 and k2 - 1 != k1:
+                    f2 = uses[k2 - 1] + (make_fault(st.faults.draw(len(FAULT_TYPES)), "second-fault@%d" % (k2 - 1)),)
+                faults = (f1, f2)
+                run.world.set_fault(*f1)
+                run.world.fault2 = f2
+                out.fault_free = False
+                out.faults["party_raises"] = 1
+                if f2 is not None:
+                    out.faults["two_parties_prepared_to_fail"] = 1
+        spec._faults = faults
         sim.spawn(drive_tool(spec, run, steps, close=True))
         tenants.append((spec, steps, run))
     run_sim(sim)
@@ -82,7 +106,7 @@ def execute(st, ctx):
         if run.end is None:
             out.violate("C01.consumer_did_not_finish", (spec.tool,), {"scenario": spec.describe()})
             continue
-        ref = ref_tool(spec, steps)
+        ref = ref_tool(spec, steps, *spec._faults)
         compare_values(out, spec, run, ref)
         if (run.yields or run.end == "exc") and spec_nontrivial(spec):
             nontrivial = True
